@@ -62,7 +62,9 @@ Record cfg := mkCfg {
   c_gcoord : bool;             (* ... consulted by coordinateConnectionInitations *)
   c_gprep : bool;              (* ... by prepareConnectionInitation *)
   c_ginit : bool;              (* ... by initateConnection *)
-  c_grean : bool               (* ... by checkAutoReannounce *)
+  c_grean : bool;              (* ... by checkAutoReannounce *)
+  c_stale : bool;              (* a stale attempt (counter check) calls checkAutoReannounce *)
+  c_regcheck : bool            (* ServeHTTP / connectFoundService register through registerCheckedConnection *)
 }.
 
 Inductive label :=
@@ -131,6 +133,12 @@ Definition keep_this (h : hub) (k : N) (incoming : bool) : bool * list obs :=
       if keep then (true, [OClose old false 0]) else (false, [])
   end.
 
+(* registerCheckedConnection takes the double-connection decision again, together with the
+   registration: the displaced connection is told to close a second time (CloseConnection is
+   once-guarded).  keepThisConnection and the registration belong to one label here, so the
+   decision is the same. *)
+Definition reg_close (o2 : list obs) : list obs := if c_regcheck C then o2 else [].
+
 Definition closes_of (h : hub) : list obs :=
   flat_map (fun k => match s_reg (get h k) with Some c => [OClose c false 0] | None => [] end) (c_univ C).
 
@@ -170,7 +178,7 @@ Definition hstep (h : hub) (l : label) : hub * list obs :=
                              [OPairUpd k ConnectionStateReceivedPairingRequest])
                        else (h, []) in
       let '(go, o2) := keep_this h1 k true in
-      if go then (upd h1 k (set_reg (get h1 k) (Some c)), o1 ++ o2 ++ [OCreate c k false (s_shipid s)])
+      if go then (upd h1 k (set_reg (get h1 k) (Some c)), o1 ++ o2 ++ reg_close o2 ++ [OCreate c k false (s_shipid s)])
       else (h1, o1 ++ o2)
   | LFakeReg k c => (upd h k (set_reg (get h k) (Some c)), [])
   | LState k st err =>
@@ -193,7 +201,8 @@ Definition hstep (h : hub) (l : label) : hub * list obs :=
       | Some n =>
           let h1 := upd h k (set_pend s None) in
           if c_gprep C && h_down h then (h1, [])
-          else if negb (option_eqb N.eqb (s_counter s) (Some n)) then (h1, [])
+          (* a dropped attempt looks at the known mDNS entries again (checkAutoReannounce) *)
+          else if negb (option_eqb N.eqb (s_counter s) (Some n)) then (h1, if c_stale C then reannounce h1 else [])
           else if negb (may_dial s) then (h1, [])
           else if isSome (s_reg s) then (h1, [])
           else if c_ginit C && h_down h then (h1, reannounce h1)
@@ -210,7 +219,9 @@ Definition hstep (h : hub) (l : label) : hub * list obs :=
         let s1 := set_dialing s (N.pred (s_dialing s)) in
         let h1 := upd h k s1 in
         let '(go, o2) := keep_this h1 k false in
-        if go then (upd h1 k (set_reg s1 (Some c)), o2 ++ [OCreate c k true (s_shipid s)])
+        (* registerCheckedConnection takes the decision again: the displaced connection is
+           told to close a second time (CloseConnection is once-guarded) *)
+        if go then (upd h1 k (set_reg s1 (Some c)), o2 ++ reg_close o2 ++ [OCreate c k true (s_shipid s)])
         else (h1, o2 ++ reannounce h1)
   end.
 
@@ -386,7 +397,7 @@ Variable T : cfg.   (* table part; universe and order are taken from the case *)
 
 Definition cfg_of (c : c10_case) : cfg :=
   mkCfg (univ_of (cc_n c)) (fun k => nth (N.to_nat k) (cc_localgt c) false)
-        (c_maxc T) (c_flag T) (c_gcoord T) (c_gprep T) (c_ginit T) (c_grean T).
+        (c_maxc T) (c_flag T) (c_gcoord T) (c_gprep T) (c_ginit T) (c_grean T) (c_stale T) (c_regcheck T).
 
 (* model side of a group: run the labels, compare each label's observations *)
 Fixpoint run_group (C : cfg) (h : hub) (grp : list (label * list obs)) : hub * bool :=
@@ -432,8 +443,10 @@ End Check.
 From ShipGen Require Import HubTable.
 Definition table_cfg : cfg :=
   mkCfg [] (fun _ => false) hub_max_attempt hub_shutdown_flag hub_guard_coordinate
-        hub_guard_prepare hub_guard_initiate hub_guard_reannounce.
+        hub_guard_prepare hub_guard_initiate hub_guard_reannounce
+        hub_stale_attempt_reannounces hub_register_rechecks.
 Definition with_table (u : list N) (lgt : N -> bool) : cfg :=
   mkCfg u lgt hub_max_attempt hub_shutdown_flag hub_guard_coordinate
-        hub_guard_prepare hub_guard_initiate hub_guard_reannounce.
+        hub_guard_prepare hub_guard_initiate hub_guard_reannounce
+        hub_stale_attempt_reannounces hub_register_rechecks.
 Definition check_c10 (c : c10_case) : codes := check_c10_with table_cfg c.
